@@ -191,8 +191,8 @@ def rule_port(ctx):
     n += 1
     g = ctx.func('peer', 'Peer._integer')
     rets = [r for r in g.own_nodes() if isinstance(r, ast.Return)]
-    oki = len(rets) == 1 and isinstance(rets[0].value, ast.IfExp) and norm(rets[0].value.test) == 'isinstance(result, int)' \
-        and norm(rets[0].value.orelse) == 'None'
+    oki = len(rets) == 1 and isinstance(rets[0].value, ast.IfExp) and isinstance(rets[0].value.body, ast.Name) and \
+        norm(rets[0].value.test) == f'isinstance({rets[0].value.body.id}, int)' and norm(rets[0].value.orelse) == 'None'
     ctx.check(oki, 'C19.PORT', ctx.key(g, None, 'integers only'), '_integer returns an int or None',
               '_integer can return a non-integer', loc=ctx.loc(g, g.node))
     return n + 1
@@ -203,12 +203,13 @@ def rule_public(ctx):
     rets = [r for r in f.own_nodes() if isinstance(r, ast.Return)]
     ok = len(rets) == 2
     ip_branch = name_branch = False
+    ipn = {s.targets[0].id for s in f.own_nodes() if isinstance(s, ast.Assign) and isinstance(s.targets[0], ast.Name) and norm(s.value) == 'self.ip_address'} | {'self.ip_address'}
     for r in rets:
         conj = {norm(x) for x in pr.conjuncts(r.value)}
         conds = pr.control_conditions(r, f.node)
-        on_ip = any(b and norm(t) in ('ip', 'self.ip_address') for t, b, _p in conds)
+        on_ip = any(b and norm(t) in ipn for t, b, _p in conds)
         if on_ip:
-            ip_branch = 'self.is_valid' in conj and any(c in conj for c in ('not ip.is_private', 'not self.ip_address.is_private'))
+            ip_branch = 'self.is_valid' in conj and any(f'not {i}.is_private' in conj for i in ipn)
         else:
             name_branch = 'self.is_valid' in conj and "self.host != 'localhost'" in conj
     ctx.check(ok and ip_branch and name_branch, 'C19.PUBLIC', ctx.key(f, None, 'both branches'),
@@ -222,7 +223,9 @@ def rule_public(ctx):
         if 'is_valid_hostname(self.host)' == t:
             okv = True
     ipr = [r for r in rets if 'is_global' in norm(r.value)]
-    okip = len(ipr) == 1 and 'not (ip.is_multicast or ip.is_unspecified)' in norm(ipr[0].value)
+    ipn = {s.targets[0].id for s in g.own_nodes() if isinstance(s, ast.Assign) and isinstance(s.targets[0], ast.Name) and norm(s.value) == 'self.ip_address'} | {'self.ip_address'}
+    okip = len(ipr) == 1 and any(f'not ({i}.is_multicast or {i}.is_unspecified)' in norm(ipr[0].value) and
+                                 f'({i}.is_global or {i}.is_private)' in norm(ipr[0].value) for i in ipn)
     ctx.check(okv and okip, 'C19.PUBLIC', ctx.key(g, None, 'validity'),
               'a named host is valid iff it is a syntactically valid hostname; an IP iff global-or-private and neither multicast nor unspecified',
               'is_valid does not test hostname syntax / address class as required', loc=ctx.loc(g, g.node))
@@ -304,8 +307,8 @@ def rule_features(ctx):
     n += 1
     g = ctx.func('peer', 'Peer._string')
     rets = [r for r in g.own_nodes() if isinstance(r, ast.Return)]
-    oks = len(rets) == 1 and isinstance(rets[0].value, ast.IfExp) and norm(rets[0].value.test) == 'isinstance(result, str)' \
-        and norm(rets[0].value.orelse) == 'None'
+    oks = len(rets) == 1 and isinstance(rets[0].value, ast.IfExp) and isinstance(rets[0].value.body, ast.Name) and \
+        norm(rets[0].value.test) == f'isinstance({rets[0].value.body.id}, str)' and norm(rets[0].value.orelse) == 'None'
     ctx.check(oks, 'C19.FEATURES', ctx.key(g, None, 'strings only'), '_string returns a str or None', '_string can return a non-string',
               loc=ctx.loc(g, g.node))
     n += 1
